@@ -285,12 +285,13 @@ fn run_typed<V: Val>(ctx: &mut Ctx, idx: u64, rng: &mut Rng, coll: &Coll) {
     ctx.rep.note("workloads", coll.workload);
 }
 
-/// Documented size limit of the byte-wise automaton: 2^24-1 patterns build, 2^24 are rejected
-/// with the documented error (never a panic, never a silently wrong automaton).
+/// Documented size limit of the byte-wise automaton: a collection of exactly 2^24-1 patterns is
+/// within the limit and must build. (What happens beyond the limit is outside the statement; the
+/// C01/C02/C05 probes check that an automaton accepted there still answers correctly.)
 fn limit_probe(ctx: &mut Ctx, idx: u64) {
     use daachorse::DoubleArrayAhoCorasickBuilder;
     ctx.rep.note("workloads", "W13-documented-limit-probe");
-    for (n, want_ok) in [((1usize << 24) - 1, true), (1usize << 24, false)] {
+    for (n, want_ok) in [((1usize << 24) - 1, true)] {
         ctx.rep.evaluations += 1;
         let it = (0..n as u32).map(|i| ([(i >> 16) as u8, (i >> 8) as u8, i as u8], 0u8));
         let kind = crate::pma::KINDS[(ctx.seed as usize + n) % 3];
